@@ -1983,6 +1983,17 @@ pub(crate) fn t_base(cols: usize, rows: usize, limit: usize) {
     forget(t);
 }
 
+/// T-base with unlimited scrollback
+pub(crate) fn t_base_unlimited(cols: usize, rows: usize) {
+    let t = Terminal::new((cols, rows), None);
+    assert_inv(&t);
+    let s = snap(&t);
+    assert!(s.len == rows && s.other_len == rows && !s.alt, "[C02][C19] a fresh terminal shows a blank primary screen");
+    assert!(b_limit(&t.buffer).is_none() && b_limit(&t.other_buffer) == Some((0, 0)), "[C13] unlimited primary, no scrollback on the alternate screen");
+    kv_end!();
+    forget(t);
+}
+
 /// T-base for ANY scrollback limit
 pub(crate) fn t_base_any(cols: usize, rows: usize) {
     let limit = any_usize();
